@@ -29,6 +29,8 @@ def build(v):
         return None
     if k in ("bool", "int", "flt", "str"):
         return v[1]
+    if k == "fltx":
+        return float(v[1])
     if k == "list":
         return []
     if k == "dict":
@@ -86,6 +88,21 @@ def main():
             except BaseException:
                 cv.append(0)
         out["fields"].append({"ctor": ctor, "conv": cv})
+    out["nested"] = []
+    for n in req.get("nested", []):
+        cls = getattr(T, n["cls"])
+        acc = []
+        for z in req["grid"]:
+            inner = dict(n["inner"])
+            inner[n["path"][-1]] = z
+            j = dict(n["base"])
+            j[n["path"][0]] = [inner] if n["arr"] else inner
+            try:
+                conv.structure(j, cls)
+                acc.append(1)
+            except BaseException:
+                acc.append(0)
+        out["nested"].append(acc)
     json.dump(out, sys.stdout)
 
 
